@@ -115,6 +115,13 @@ CONTRACTS['fp.timerange'] = CONTRACTS['timerange']
 # Model.memoize: compute once, under the NORMALISED key (C05 "any arithmetic route", C08 "single value")
 # ---------------------------------------------------------------------------------------------------
 
+GH5 = {'lastarg': REAL}
+
+
+def _arg_ghost(C, st):
+    st.ghost['lastarg'] = SV(REAL, C.t)
+
+
 def _eval_ghost(C, st):
     arr = st.heap_arr_cf('SdModel', 'g_evals')
     m = C.model.z
@@ -126,8 +133,8 @@ EQVAL = z3.Function('equation_value', EQFUN.sort(), z3.RealSort(), z3.IntSort(),
 contract('fun:equation', trusted=True, props=['C05', 'C08', 'C01'], allocates=False,
          note='a generated equation lambda t -> value: may evaluate other elements through memoize (the memo only grows, '
               'existing entries keep their value); each evaluation is counted in the ghost g_evals',
-         params=dict(t=REAL), returns=REAL, modifies=['SdModel.memo'], ghost_mods=['SdModel.g_evals'],
-         ensures=lambda C: memo_grows(C))
+         params=dict(t=REAL), returns=REAL, modifies=['SdModel.memo'], ghost_mods=['SdModel.g_evals', '$lastarg'], ghost=GH5,
+         ghost_update=_arg_ghost, ensures=lambda C: memo_grows(C))
 
 
 def memo_grows(C):
@@ -156,6 +163,8 @@ def memoize_post(C):
         m1.memo.has(e), m1.memo[e].has(key), m1.memo[e][key] == C.result,
         # compute once: a key that is present is returned without evaluating the equation and never overwritten
         Implies(had, And(C.result == m0.memo[e][key], m1.memo.z == m0.memo.z)),
+        # a key that is absent is computed by evaluating the equation AT THE NORMALISED TIME (the grid label), not at the raw argument
+        Implies(Not(had), C.g('lastarg') == key),
         # entries that existed keep their value (single value per (element, time) within a run)
         FA('str', 'real', lambda e2, k2: Implies(And(m0.memo.has(e2), m0.memo[e2].has(k2)),
                                                  And(m1.memo.has(e2), m1.memo[e2].has(k2), m1.memo[e2][k2] == m0.memo[e2][k2])),
@@ -172,7 +181,7 @@ def memo_kept(C):
 c = contract('Model.memoize', file=F_MODEL, props=['C05', 'C08', 'C01'], params=dict(self=SDM, equation=STR, arg=REAL), returns=REAL,
              requires=lambda C: C.self.dt != 0,
              ensures=memoize_post,
-             modifies=['SdModel.memo'], ghost_mods=['SdModel.g_evals'],
+             modifies=['SdModel.memo'], ghost_mods=['SdModel.g_evals', '$lastarg'], ghost=GH5,
              raises={'KeyError': lambda C: Not(C.self.equations.has(C.equation))},
              exc_ensures={'KeyError': lambda C: memo_kept(C)})
 c.locals = dict(mymemo=TDict(REAL, REAL))
@@ -181,13 +190,13 @@ c.locals = dict(mymemo=TDict(REAL, REAL))
 contract('Model.equation', file=F_MODEL, props=['C05', 'C09'], params=dict(self=SDM, equation=STR, t=REAL), returns=REAL,
          requires=lambda C: C.self.dt != 0,
          ensures=lambda C: memoize_post(Ctx(C.ex, C.st, C.old_st, dict(C.params, arg=C.params['t']), result=C._result, side=C.side)),
-         modifies=['SdModel.memo'], ghost_mods=['SdModel.g_evals'],
+         modifies=['SdModel.memo'], ghost_mods=['SdModel.g_evals', '$lastarg'], ghost=GH5,
          raises={'KeyError': lambda C: Not(C.self.equations.has(C.equation))}, exc_ensures={'KeyError': memo_kept})
 CONTRACTS['SdModel.equation'] = CONTRACTS['Model.equation']
 # the view of Model.equation used by __simulate: only that the memo keeps growing (implied by the full contract above)
 contract('SdModel.equation#frame', trusted=True, props=['C05'], params=dict(self=SDM, equation=STR, t=REAL), returns=REAL,
          note='weakening of the verified contract of Model.equation (memo entries are kept)',
-         requires=lambda C: C.self.dt != 0, ensures=memo_kept, modifies=['SdModel.memo'], ghost_mods=['SdModel.g_evals'],
+         requires=lambda C: C.self.dt != 0, ensures=memo_kept, modifies=['SdModel.memo'], ghost_mods=['SdModel.g_evals', '$lastarg'], ghost=GH5,
          raises={'KeyError': lambda C: Not(C.self.equations.has(C.equation))}, exc_ensures={'KeyError': memo_kept})
 CONTRACTS['SdModel.memoize'] = CONTRACTS['Model.memoize']
 
@@ -234,6 +243,6 @@ c = contract('SdSimulation.__simulate', file=F_SIM, props=['C05', 'C09'], params
                                     FA('real', lambda i: next_grid(i, C.self.mod.dt, C.start, prec(C.start, C.self.mod.dt)) > i,
                                        pats=lambda i: [next_grid(i, C.self.mod.dt, C.start, prec(C.start, C.self.mod.dt))])),
              ensures=sim_post, loops={0: sim_inv},
-             modifies=['SdSimulation.results', 'SdSimulation.finished_simulations_count', 'SdModel.memo'], ghost_mods=['SdModel.g_evals'])
+             modifies=['SdSimulation.results', 'SdSimulation.finished_simulations_count', 'SdModel.memo'], ghost_mods=['SdModel.g_evals', '$lastarg'], ghost=GH5)
 c.locals = dict(dic_t=TDict(REAL, REAL))
 c.callee_alias = {'Model.equation': 'SdModel.equation#frame'}
